@@ -50,41 +50,50 @@ def allrules(root):
         return {"error": (p.stdout + p.stderr)[-400:]}
 
 
-def recheck():
+def _recheck_one(name):
     base = os.path.join(V, "benign")
+    d = os.path.join(base, name)
+    tmp = tempfile.mkdtemp(prefix="pgv-ben-")
+    try:
+        shutil.copytree("/repo/parglare", os.path.join(tmp, "parglare"), ignore=shutil.ignore_patterns("__pycache__", "*.pyc", "*.pgc"))
+        p = subprocess.run(["patch", "-p1", "-s", "--no-backup-if-mismatch", "-d", tmp, "-i", os.path.join(d, "patch.diff")], capture_output=True, text=True)
+        if p.returncode != 0:
+            return name, "skipped", None
+        res = allrules(tmp)
+        fired = res.get("fired", {})
+        errs = res.get("errors", {})
+        meta = json.load(open(os.path.join(d, "meta.json")))
+        meta["checks_fired"], meta["checks_errors"] = fired, errs
+        json.dump(meta, open(os.path.join(d, "meta.json"), "w"), indent=1)
+        if fired or errs or res.get("error"):
+            first = next(iter(fired.values()), None) or next(iter(errs.values()), None) or res.get("error")
+            return name, "FALSE-ALARM", f"in {sorted(set(fired) | set(errs))}: {str(first)[:160]}"
+        return name, "silent", None
+    finally:
+        shutil.rmtree(tmp, ignore_errors=True)
+
+
+def recheck(prefixes=()):
+    base = os.path.join(V, "benign")
+    names = [n for n in sorted(os.listdir(base)) if os.path.exists(os.path.join(base, n, "patch.diff")) and (not prefixes or n.startswith(tuple(prefixes)))]
+    with ThreadPoolExecutor(8) as ex:
+        res = list(ex.map(_recheck_one, names))
     bad = 0
-    for name in sorted(os.listdir(base)):
-        d = os.path.join(base, name)
-        if not os.path.exists(os.path.join(d, "patch.diff")):
-            continue
-        tmp = tempfile.mkdtemp(prefix="pgv-ben-")
-        try:
-            shutil.copytree("/repo/parglare", os.path.join(tmp, "parglare"), ignore=shutil.ignore_patterns("__pycache__", "*.pyc", "*.pgc"))
-            p = subprocess.run(["patch", "-p1", "-s", "--no-backup-if-mismatch", "-d", tmp, "-i", os.path.join(d, "patch.diff")], capture_output=True, text=True)
-            if p.returncode != 0:
-                print(f"  benign {name:<12} skipped (patch does not apply to the current tree)")
-                continue
-            res = allrules(tmp)
-            fired = res.get("fired", {})
-            errs = res.get("errors", {})
-            meta = json.load(open(os.path.join(d, "meta.json")))
-            meta["checks_fired"], meta["checks_errors"] = fired, errs
-            json.dump(meta, open(os.path.join(d, "meta.json"), "w"), indent=1)
-            if fired or errs or res.get("error"):
-                bad += 1
-                first = next(iter(fired.values()), None) or next(iter(errs.values()), None) or res.get("error")
-                print(f"  benign {name:<12} FALSE-ALARM in {sorted(set(fired) | set(errs))}: {str(first)[:160]}")
-            else:
-                print(f"  benign {name:<12} silent")
-        finally:
-            shutil.rmtree(tmp, ignore_errors=True)
-    print("false alarms:", bad)
+    for name, verdict, why in res:
+        if verdict == "FALSE-ALARM":
+            bad += 1
+            print(f"  benign {name:<12} FALSE-ALARM {why}")
+        elif verdict == "skipped":
+            print(f"  benign {name:<12} skipped (patch does not apply to the current tree)")
+        else:
+            print(f"  benign {name:<12} silent")
+    print(f"benign refactorings: {len(res)}; false alarms: {bad}")
     return bad
 
 
 def main():
     if "--recheck" in sys.argv:
-        sys.exit(1 if recheck() else 0)
+        sys.exit(1 if recheck([a for a in sys.argv[1:] if not a.startswith("--")]) else 0)
     for wt in sys.argv[1:]:
         wt = wt.rstrip("/")
         area = os.path.basename(wt)
